@@ -37,6 +37,23 @@ CHECKS = {
         note="n<=3 quick / n<=4 thorough; margin 1e-3 against tolerances 1e-10/1e-5 so sub-tolerance geometry is outside; "
              "one axis symbolic at a time (both orientations).",
         design="5/C06"),
+    'C02': dict(
+        text="Bounded symbolic model checking of the real Allocation constructor and refine / uniform_refinement_depth / griddify: "
+             "cell coordinates on one axis are symbolic breakpoints, occupancy ratios and threshold symbolic reals; on every path "
+             "z3 proves free-point tiling (no overlap, same region), per-module area and first-moment conservation (polynomial "
+             "identities, also through the area()/center() API), ratio inheritance from the containing parent, that the call "
+             "succeeds, and that fixed cells are not cut.",
+        note="15 partition templates up to 4 cells, levels<=3, both orientations, compositions of two operations in the thorough tier; "
+             "exact reals with margin 1e-3 against tolerance 1e-10; invalid pre-states rejected by the constructor are discarded.",
+        design="5/C02"),
+    'C12': dict(
+        text="Same exploration as C02 with the decision obligations: must_be_refined(t) <=> refine(t) changes the allocation <=> "
+             "some non-empty cell has all ratios <= t; refine splits exactly those cells into 2^levels equal cells (longer side "
+             "halved first, depth raised), others untouched; uniform refinement ends at the former maximum depth with 2^(max-d) "
+             "equal cells per cell; after griddify no boundary line of any cell crosses a refinable cell except slivers.",
+        note="Bounds as C02. The number of rounds of the refine-while-needed loop is not bounded by this check (only progress per "
+             "requested round and identity when not requested).",
+        design="5/C12"),
 }
 
 PENDING_REASON = "check not built yet in this round (planned in DESIGN.md section 5); nothing is claimed"
